@@ -22,6 +22,7 @@ import (
 	"sync/atomic"
 	"time"
 
+	"github.com/wundergraph/graphql-go-tools/execution/engine"
 	"github.com/wundergraph/graphql-go-tools/execution/graphql"
 	"github.com/wundergraph/graphql-go-tools/v2/pkg/ast"
 	"github.com/wundergraph/graphql-go-tools/v2/pkg/astparser"
@@ -117,6 +118,10 @@ type c10Stream struct {
 }
 
 func (e *fedEngine) runStream(sess *fedSession, query, opName string, vars []byte, flushDelay time.Duration) *c10Stream {
+	return e.runStreamOpts(sess, query, opName, vars, flushDelay)
+}
+
+func (e *fedEngine) runStreamOpts(sess *fedSession, query, opName string, vars []byte, flushDelay time.Duration, options ...engine.ExecutionOptions) *c10Stream {
 	e.mu.Lock()
 	e.sess = sess
 	e.mu.Unlock()
@@ -129,7 +134,7 @@ func (e *fedEngine) runStream(sess *fedSession, query, opName string, vars []byt
 	errCh := make(chan error, 1)
 	ctx, cancel := context.WithCancel(context.Background())
 	defer cancel()
-	go func() { errCh <- e.eng.Execute(ctx, &req, w) }()
+	go func() { errCh <- e.eng.Execute(ctx, &req, w, options...) }()
 	out := &c10Stream{}
 	select {
 	case out.Err = <-errCh:
